@@ -47,7 +47,15 @@ ProbeOK(T, p, pr) ==
     /\ MatchObs(T.q[p], pr.st)
     /\ pr.b = (IF c.b THEN T.bang[p] ELSE 0)
 
-AtKill(T, p) == ~T.tb[p] /\ T.ph[p].n = "cmd" /\ ~AtEnd(T, p) /\ Cmd(T, p).k = "kill"
+AtKill(T, p) == ~T.tb[p] /\ ~T.stp[p] /\ T.ph[p].n = "cmd" /\ ~AtEnd(T, p) /\ Cmd(T, p).k = "kill"
+                /\ Cmd(T, p).s = "TERM"
+
+\* Passing a pid through a pipe (mypid / read) has no visible effect and is
+\* deterministic: those steps of every process are taken as soon as possible.
+RECURSIVE Settle(_)
+Settle(T) ==
+  LET xs == {x \in Pids : T.st[x] = "Run" /\ Tag(T, x) \in {"pub", "get"} /\ Kind(T, x) = "silent"}
+  IN IF xs = {} THEN T ELSE Settle(Apply(T, CHOOSE x \in xs : TRUE, 0))
 
 \* B = [pr: probes left, fk: forks left, rp: reaps left, ex: termination left, xs]
 RECURSIVE Run(_, _, _)
@@ -81,11 +89,17 @@ Run(T, p, B) ==
             [] k = "kill" ->
                  IF KillTarget(T, p) \in B.kl
                  THEN Run(Apply(T, p, 0), p, [B EXCEPT !.kl = @ \ {KillTarget(T, p)}]) ELSE stop
+            [] k \in {"stop", "cont"} ->
+                 IF B.sg # <<>> /\ Head(B.sg)[1] = KillTarget(T, p) /\ Head(B.sg)[2] = (IF k = "stop" THEN "S" ELSE "C")
+                 THEN Run(Apply(T, p, 0), p, [B EXCEPT !.sg = Tail(@)]) ELSE stop
+            [] k = "ack" ->
+                 IF T.ph[p].c \in B.ak
+                 THEN Run(Apply(T, p, 0), p, [B EXCEPT !.ak = @ \ {T.ph[p].c}]) ELSE stop
             [] k = "exit" ->
                  IF B.ex /\ MatchObs(NextXs(T, p), B.xs)
                  THEN Run(Apply(T, p, 0), p, [B EXCEPT !.ex = FALSE]) ELSE stop
 
-Consumed(B) == B.pr = <<>> /\ B.fk = <<>> /\ B.rp = {} /\ B.kl = {} /\ ~B.ex
+Consumed(B) == B.pr = <<>> /\ B.fk = <<>> /\ B.rp = {} /\ B.kl = {} /\ B.sg = <<>> /\ B.ak = {} /\ ~B.ex
 
 \* the defect shape of virtual.rs::wait(-1): no changed child, the child with
 \* the highest pid is dead and reaped, another child is still alive
@@ -102,7 +116,7 @@ Diag(T, p, B, why) ==
    mode |-> IF p \in Pids THEN T.ph[p].m ELSE "",
    q |-> IF p \in Pids THEN T.q[p] ELSE 0,
    shape |-> IF p \in Pids /\ T.st[p] = "Run" THEN LastChildDead(T, p) ELSE FALSE,
-   left |-> [pr |-> B.pr, fk |-> B.fk, rp |-> B.rp, kl |-> B.kl, ex |-> B.ex, xs |-> B.xs],
+   left |-> [pr |-> B.pr, fk |-> B.fk, rp |-> B.rp, kl |-> B.kl, sg |-> B.sg, ak |-> B.ak, ex |-> B.ex, xs |-> B.xs],
    inv |-> [reap |-> ReapOnce(T), status |-> StatusTrue(T), fg |-> NoFgLeft(T), jobs |-> JobsSound(T)]]
 
 Bad(e, d) == PrintT(ToJson([bad |-> l, run |-> e.run, d |-> d]))
@@ -117,8 +131,8 @@ TReset ==
 TBatch ==
   /\ Ev.ev = "batch" /\ ~skip
   /\ LET B0 == [pr |-> Ev.probes, fk |-> Ev.forks, rp |-> SeqSet(Ev.reaps), kl |-> SeqSet(Ev.kills),
-                ex |-> Ev.ex, xs |-> Ev.xs]
-         R == Run(S, Ev.actor, B0)
+                sg |-> Ev.sigs, ak |-> SeqSet(Ev.acks), ex |-> Ev.ex, xs |-> Ev.xs]
+         R == Run(Settle(S), Ev.actor, B0)
          ok == Ev.odd = <<>> /\ Consumed(R.B) /\ R.S.err = "" /\ Safe(R.S)
      IN IF ok THEN S' = R.S /\ skip' = FALSE /\ nbad' = nbad
         ELSE /\ Bad(Ev, Diag(R.S, Ev.actor, R.B,
@@ -139,8 +153,8 @@ TableOK(T, tab) ==
 
 TEnd ==
   /\ Ev.ev = "end" /\ ~skip
-  /\ LET B0 == [pr |-> <<>>, fk |-> <<>>, rp |-> {}, kl |-> {}, ex |-> TRUE, xs |-> Ev.status]
-         R == IF Ev.outcome = "completed" THEN Run(S, Base, B0) ELSE [S |-> S, B |-> B0]
+  /\ LET B0 == [pr |-> <<>>, fk |-> <<>>, rp |-> {}, kl |-> {}, sg |-> <<>>, ak |-> {}, ex |-> TRUE, xs |-> Ev.status]
+         R == IF Ev.outcome = "completed" THEN Run(Settle(S), Base, B0) ELSE [S |-> S, B |-> B0]
          ok == /\ Ev.outcome = "completed"
                /\ Consumed(R.B) /\ R.S.err = ""
                /\ Terminated(R.S)
